@@ -5,7 +5,220 @@
    root np.sqrt is an uninterpreted symbol assumed exact on the perfect squares that occur.  Closed under the global context. *)
 From Coq Require Import String ZArith QArith List Bool Lia Arith.
 From Ticc Require Import Gen.PyRt Gen.G_matrix_compression Model.TriIndex.
+From Ticc Require Import Proofs.TriIndexP.
 Import ListNotations.
+
+
+(* ------------------------------------------------------------------ *)
+(* generic list / run-time facts                                       *)
+(* ------------------------------------------------------------------ *)
+
+Lemma mc_getitem_nat {A : Type} (l : list A) (k : nat) (d : A) : (k < length l)%nat ->
+  py_getitem l (Z.of_nat k) = Ret (nth k l d).
+Proof.
+  intros Hk. unfold py_getitem, py_len.
+  replace (Z.of_nat k <? 0)%Z with false by lia.
+  replace ((Z.of_nat k <? 0)%Z || (Z.of_nat (length l) <=? Z.of_nat k)%Z) with false by lia.
+  rewrite Nat2Z.id, (nth_error_nth' l d Hk). reflexivity.
+Qed.
+
+Lemma mc_set_index_nat {A : Type} (l : list A) (k : nat) (v : A) : (k < length l)%nat ->
+  py_set_index l (Z.of_nat k) v = Ret (set_nth k v l).
+Proof.
+  intros Hk. unfold py_set_index, py_len.
+  replace (Z.of_nat k <? 0)%Z with false by lia.
+  replace ((Z.of_nat k <? 0)%Z || (Z.of_nat (length l) <=? Z.of_nat k)%Z) with false by lia.
+  rewrite Nat2Z.id. reflexivity.
+Qed.
+
+Lemma mc_get2_nat {A : Type} (r k : Z) (cells : list (list A)) (i j : nat) (d : A) :
+  (i < length cells)%nat -> (j < length (nth i cells []))%nat ->
+  np_get2 (mk_arr2 r k cells) (Z.of_nat i) (Z.of_nat j) = Ret (nth j (nth i cells []) d).
+Proof.
+  intros Hi Hj. unfold np_get2. cbn [a_cells]. rewrite (mc_getitem_nat _ _ [] Hi). cbn [bind].
+  apply mc_getitem_nat, Hj.
+Qed.
+
+Lemma mc_set2_nat {A : Type} (r k : Z) (cells : list (list A)) (i j : nat) (v : A) :
+  (i < length cells)%nat -> (j < length (nth i cells []))%nat ->
+  np_set2 (mk_arr2 r k cells) (Z.of_nat i) (Z.of_nat j) v
+  = Ret (mk_arr2 r k (set_nth i (set_nth j v (nth i cells [])) cells)).
+Proof.
+  intros Hi Hj. unfold np_set2. cbn [a_cells a_rows a_cols]. rewrite (mc_getitem_nat _ _ [] Hi). cbn [bind].
+  rewrite (mc_set_index_nat _ _ _ Hj). cbn [bind].
+  replace (Z.of_nat i <? 0)%Z with false by lia. rewrite Nat2Z.id. reflexivity.
+Qed.
+
+Lemma mc_mapM_map {X Y W : Type} (f : Y -> res W) (h : X -> Y) (xs : list X) :
+  mapM f (map h xs) = mapM (fun x => f (h x)) xs.
+Proof.
+  induction xs as [|x xs IH]; cbn [map mapM]; [reflexivity|]. rewrite IH. reflexivity.
+Qed.
+
+Lemma mc_combine_map {X A B : Type} (f : X -> A) (g : X -> B) (l : list X) :
+  combine (map f l) (map g l) = map (fun x => (f x, g x)) l.
+Proof. induction l as [|x l IH]; cbn [map combine]; [reflexivity|]. rewrite IH. reflexivity. Qed.
+
+Lemma mc_repeat_map_seq {A : Type} (a : A) (k : nat) : forall s : nat, repeat a k = map (fun _ => a) (seq s k).
+Proof. induction k as [|k IH]; intros s; cbn [repeat seq map]; [reflexivity|]. rewrite <- IH. reflexivity. Qed.
+
+Lemma mc_py_map2_map {X A B C : Type} (f : A -> B -> C) (g : X -> A) (h : X -> B) (l : list X) :
+  py_map2 f (map g l) (map h l) = map (fun x => f (g x) (h x)) l.
+Proof. induction l as [|x l IH]; cbn [map py_map2]; [reflexivity|]. rewrite IH. reflexivity. Qed.
+
+(* storing into a tabulated list *)
+Lemma mc_set_nth_map_seq {A : Type} (f : nat -> A) (v : A) (n : nat) : forall (s k : nat), (k < n)%nat ->
+  set_nth k v (map f (seq s n)) = map (fun i => if Nat.eqb i (s + k) then v else f i) (seq s n).
+Proof.
+  induction n as [|n IH]; intros s k Hk; [lia|].
+  destruct k as [|k]; cbn [seq map set_nth].
+  - rewrite Nat.add_0_r, Nat.eqb_refl. f_equal.
+    apply map_ext_in. intros i Hi. apply in_seq in Hi.
+    replace (Nat.eqb i s) with false by (symmetry; apply Nat.eqb_neq; lia). reflexivity.
+  - replace (Nat.eqb s (s + S k)) with false by (symmetry; apply Nat.eqb_neq; lia). f_equal.
+    rewrite (IH (S s) k) by lia. apply map_ext. intros i.
+    replace (S s + k)%nat with (s + S k)%nat by lia. reflexivity.
+Qed.
+
+(* ------------------------------------------------------------------ *)
+(* matrices as tabulated functions                                     *)
+(* ------------------------------------------------------------------ *)
+
+Lemma mc_rows_length {A : Type} (n : nat) (M : nat -> nat -> A) : length (matrix_rows n M) = n.
+Proof. unfold matrix_rows. rewrite map_length, seq_length. reflexivity. Qed.
+
+Lemma mc_rows_nth {A : Type} (n : nat) (M : nat -> nat -> A) (r : nat) : (r < n)%nat ->
+  nth r (matrix_rows n M) [] = map (fun c => M r c) (seq 0 n).
+Proof.
+  intros Hr. unfold matrix_rows. rewrite (nth_map_lt _ _ _ _ 0%nat) by (rewrite seq_length; exact Hr).
+  rewrite seq_nth by exact Hr. reflexivity.
+Qed.
+
+Lemma mc_rows_cell {A : Type} (n : nat) (M : nat -> nat -> A) (r c : nat) (d : A) : (r < n)%nat -> (c < n)%nat ->
+  nth c (nth r (matrix_rows n M) []) d = M r c.
+Proof.
+  intros Hr Hc. rewrite (mc_rows_nth n M r Hr). rewrite (nth_map_lt _ _ _ _ 0%nat) by (rewrite seq_length; exact Hc).
+  rewrite seq_nth by exact Hc. reflexivity.
+Qed.
+
+Lemma matrix_rows_ext {A : Type} (n : nat) (M M' : nat -> nat -> A) :
+  (forall r c, (r < n)%nat -> (c < n)%nat -> M r c = M' r c) -> matrix_rows n M = matrix_rows n M'.
+Proof.
+  intros H. unfold matrix_rows. apply map_ext_in. intros r Hr. apply in_seq in Hr.
+  apply map_ext_in. intros c Hc. apply in_seq in Hc. apply H; lia.
+Qed.
+
+Lemma mc_get2_rows {A : Type} (a b : Z) (n : nat) (M : nat -> nat -> A) (r c : nat) : (r < n)%nat -> (c < n)%nat ->
+  np_get2 (mk_arr2 a b (matrix_rows n M)) (Z.of_nat r) (Z.of_nat c) = Ret (M r c).
+Proof.
+  intros Hr Hc. rewrite (mc_get2_nat a b _ r c (M r c)).
+  - rewrite mc_rows_cell by assumption. reflexivity.
+  - rewrite mc_rows_length. exact Hr.
+  - rewrite mc_rows_nth by exact Hr. rewrite map_length, seq_length. exact Hc.
+Qed.
+
+(* one store *)
+Definition mc_upd {A : Type} (U : nat -> nat -> A) (p : nat * nat) (v : A) (R C : nat) : A :=
+  if (Nat.eqb (fst p) R && Nat.eqb (snd p) C)%bool then v else U R C.
+
+Lemma mc_set2_rows {A : Type} (a b : Z) (n : nat) (U : nat -> nat -> A) (r c : nat) (v : A) : (r < n)%nat -> (c < n)%nat ->
+  np_set2 (mk_arr2 a b (matrix_rows n U)) (Z.of_nat r) (Z.of_nat c) v
+  = Ret (mk_arr2 a b (matrix_rows n (mc_upd U (r, c) v))).
+Proof.
+  intros Hr Hc. rewrite mc_set2_nat.
+  - f_equal. f_equal. rewrite (mc_rows_nth n U r Hr).
+    rewrite (mc_set_nth_map_seq _ _ n 0 c Hc).
+    unfold matrix_rows at 1. rewrite (mc_set_nth_map_seq _ _ n 0 r Hr).
+    unfold matrix_rows. apply map_ext_in. intros R HR. cbn [plus].
+    unfold mc_upd. cbn [fst snd]. rewrite (Nat.eqb_sym r R).
+    destruct (Nat.eqb R r) eqn:E.
+    + apply Nat.eqb_eq in E. subst R. apply map_ext. intros C. rewrite (Nat.eqb_sym c C). reflexivity.
+    + reflexivity.
+  - rewrite mc_rows_length. exact Hr.
+  - rewrite mc_rows_nth by exact Hr. rewrite map_length, seq_length. exact Hc.
+Qed.
+
+
+(* ------------------------------------------------------------------ *)
+(* a[(rows, cols)] = values, cell-wise                                 *)
+(* ------------------------------------------------------------------ *)
+
+(* the stores of np_put2 in order, on functions *)
+Fixpoint mc_put {A : Type} (U : nat -> nat -> A) (ps : list (nat * nat)) (vs : list A) : nat -> nat -> A :=
+  match ps, vs with
+  | p :: ps', v :: vs' => mc_put (mc_upd U p v) ps' vs'
+  | _, _ => U
+  end.
+
+Lemma mc_find_pos_shift (x : nat * nat) (l : list (nat * nat)) : forall s : nat,
+  find_pos x l (S s) = option_map S (find_pos x l s).
+Proof.
+  induction l as [|y l IH]; intros s; cbn [find_pos]; [reflexivity|].
+  destruct (Nat.eqb (fst y) (fst x) && Nat.eqb (snd y) (snd x))%bool; [reflexivity|]. apply IH.
+Qed.
+
+(* distinct positions: the cell at the k-th position holds the k-th value, the others are untouched *)
+Lemma mc_put_find {A : Type} (d : A) (ps : list (nat * nat)) : NoDup ps ->
+  forall (U : nat -> nat -> A) (vs : list A) (R C : nat), length vs = length ps ->
+  mc_put U ps vs R C = match find_pos (R, C) ps 0 with Some k => nth k vs d | None => U R C end.
+Proof.
+  intros Hnd. induction Hnd as [|p ps Hnotin Hnd IH]; intros U vs R C Hlen.
+  - destruct vs; reflexivity.
+  - destruct vs as [|v vs]; [discriminate Hlen|]. cbn [length] in Hlen.
+    cbn [mc_put find_pos fst snd]. rewrite (IH _ vs R C) by lia.
+    destruct (Nat.eqb (fst p) R && Nat.eqb (snd p) C)%bool eqn:E.
+    + assert (Hp : p = (R, C)) by (apply pair_eqb_true; exact E). subst p.
+      rewrite (find_pos_notin _ _ 0%nat Hnotin). unfold mc_upd. rewrite E. reflexivity.
+    + rewrite mc_find_pos_shift. destruct (find_pos (R, C) ps 0) as [k|]; cbn [option_map nth]; [reflexivity|].
+      unfold mc_upd. rewrite E. reflexivity.
+Qed.
+
+(* the loop of np_put2 on in-range positions *)
+Lemma mc_put_loop {A : Type} (a b : Z) (n : nat) (ps : list (nat * nat)) :
+  (forall r c, In (r, c) ps -> (r < n)%nat /\ (c < n)%nat) ->
+  forall (vs : list A) (U : nat -> nat -> A),
+  foldM (fun acc rcv => np_set2 acc (fst (fst rcv)) (snd (fst rcv)) (snd rcv))
+        (combine (map (fun rc => (Z.of_nat (fst rc), Z.of_nat (snd rc))) ps) vs)
+        (mk_arr2 a b (matrix_rows n U))
+  = Ret (mk_arr2 a b (matrix_rows n (mc_put U ps vs))).
+Proof.
+  induction ps as [|[r c] ps IH]; intros Hin vs U.
+  - reflexivity.
+  - destruct vs as [|v vs]; [reflexivity|].
+    cbn [map combine foldM fst snd mc_put].
+    destruct (Hin r c (or_introl eq_refl)) as [Hr Hc].
+    rewrite (mc_set2_rows a b n U r c v Hr Hc). cbn [bind].
+    apply IH. intros r' c' H'. apply Hin. right. exact H'.
+Qed.
+
+(* ------------------------------------------------------------------ *)
+(* int((sqrt(8m+1) - 1) / 2) on Q                                      *)
+(* ------------------------------------------------------------------ *)
+
+Lemma mc_half_int (k : Z) : (0 <= k)%Z ->
+  py_int_of_float (py_truediv (inject_Z (2 * k + 1) - inject_Z 1)%Q (inject_Z 2)) = k.
+Proof.
+  intros Hk. unfold py_int_of_float, py_truediv, Qdiv, Qminus, Qplus, Qopp, Qmult, Qinv, inject_Z.
+  cbn [Qnum Qden].
+  change (Z.pos (1 * 1 * 2)) with 2%Z.
+  match goal with |- (?a ÷ _)%Z = _ => replace a with (k * 2)%Z by ring end.
+  apply Z.quot_mul. discriminate.
+Qed.
+
+(* ------------------------------------------------------------------ *)
+(* np.triu_indices                                                     *)
+(* ------------------------------------------------------------------ *)
+
+Lemma mc_triu_indices (n : nat) :
+  np_triu_indices (Z.of_nat n)
+  = (map (fun rc => Z.of_nat (fst rc)) (triu n), map (fun rc => Z.of_nat (snd rc)) (triu n)).
+Proof.
+  unfold np_triu_indices, triu. rewrite Nat2Z.id. generalize (seq 0 n) as l. intros l. f_equal.
+  - induction l as [|r l IH]; cbn [flat_map map]; [reflexivity|].
+    rewrite map_app, IH. f_equal. rewrite map_map. cbn [fst]. apply mc_repeat_map_seq.
+  - induction l as [|r l IH]; cbn [flat_map map]; [reflexivity|].
+    rewrite map_app, IH. f_equal. rewrite map_map. cbn [snd]. reflexivity.
+Qed.
 
 Section E.
   Variable F : Type.
@@ -15,23 +228,104 @@ Section E.
   (* the float64 square root is exact on perfect squares (below 2^53) *)
   Hypothesis sqrt_exact : forall k : Z, (0 <= k)%Z -> np_sqrt_int (k * k) = inject_Z k.
 
-  (* STATEMENTS (to be proved):
-
   (* 1. compress_matrix on an n x n array whose cell (r, c) is M r c returns the model's compressed vector *)
   Theorem g_compress_matrix_eq (n : nat) (M : nat -> nat -> F) :
     g_compress_matrix F (mk_arr2 (Z.of_nat n) (Z.of_nat n) (matrix_rows n M)) = Ret (compress n M).
+  Proof.
+    unfold g_compress_matrix, g_upper_triangle_indices. cbn [a_rows a_cols].
+    rewrite Z.eqb_refl. cbn [negb bind]. rewrite mc_triu_indices. cbn [fst snd].
+    unfold np_take2. rewrite !map_length, Nat.eqb_refl. rewrite mc_combine_map, mc_mapM_map. cbn [fst snd].
+    rewrite (mapM_pure _ (fun rc => M (fst rc) (snd rc))).
+    - reflexivity.
+    - intros [r c] Hin. apply triu_In in Hin. cbn [fst snd]. apply mc_get2_rows; lia.
+  Qed.
 
   (* 2. a non-square array is rejected *)
   Theorem g_compress_matrix_not_square (r c : Z) (cells : list (list F)) :
     r <> c -> g_compress_matrix F (mk_arr2 r c cells) = Raise "RuntimeError"%string.
+  Proof.
+    intros Hrc. unfold g_compress_matrix. cbn [a_rows a_cols].
+    replace (r =? c)%Z with false by (symmetry; apply Z.eqb_neq; exact Hrc). reflexivity.
+  Qed.
+
+  (* _full_matrix_size on a triangular number *)
+  Lemma mc_full_matrix_size (n : nat) :
+    g_full_matrix_size np_sqrt_int (Z.of_nat (n * (n + 1) / 2)) = Ret (Z.of_nat n).
+  Proof.
+    unfold g_full_matrix_size. rewrite <- triu_length.
+    assert (Hd := triu_length_double n).
+    replace (8 * Z.of_nat (length (triu n)) + 1)%Z with ((2 * Z.of_nat n + 1) * (2 * Z.of_nat n + 1))%Z by nia.
+    rewrite sqrt_exact by lia. rewrite mc_half_int by lia. reflexivity.
+  Qed.
+
+  (* _uncompress_upper_triangle *)
+  Lemma mc_uncompress (n : nat) (v : list F) :
+    length v = (n * (n + 1) / 2)%nat ->
+    g_uncompress_upper_triangle F f0 np_sqrt_int v
+    = Ret (mk_arr2 (Z.of_nat n) (Z.of_nat n) (matrix_rows n (upper f0 n v))).
+  Proof.
+    intros Hlen. unfold g_uncompress_upper_triangle, py_len. rewrite Hlen, mc_full_matrix_size. cbn [bind].
+    unfold np_zeros2. assert (Hneg : (Z.of_nat n <? 0)%Z = false) by (apply Z.ltb_ge; apply Nat2Z.is_nonneg).
+    rewrite Hneg. cbn [orb bind].
+    unfold g_upper_triangle_indices. cbn [bind]. rewrite mc_triu_indices. cbn [fst snd].
+    rewrite Nat2Z.id.
+    assert (Hz : repeat (repeat f0 n) n = matrix_rows n (fun _ _ => f0)).
+    { unfold matrix_rows. rewrite (mc_repeat_map_seq f0 n 0), (mc_repeat_map_seq _ n 0). reflexivity. }
+    rewrite Hz. unfold np_put2. rewrite !map_length, Nat.eqb_refl.
+    replace (Nat.eqb (length (triu n)) (length v)) with true
+      by (symmetry; apply Nat.eqb_eq; rewrite Hlen; apply triu_length).
+    cbn [andb]. rewrite mc_combine_map.
+    rewrite (mc_put_loop (Z.of_nat n) (Z.of_nat n) n (triu n)).
+    - cbn [bind]. f_equal. f_equal. apply matrix_rows_ext. intros r c _ _.
+      rewrite (mc_put_find f0 (triu n) (triu_NoDup n)) by (rewrite Hlen; symmetry; apply triu_length).
+      reflexivity.
+    - intros r c Hin. apply triu_In in Hin. lia.
+  Qed.
+
+  (* _upper_to_full *)
+  Lemma mc_upper_to_full (n : nat) (U : nat -> nat -> F) :
+    g_upper_to_full F f0 fadd fsub (mk_arr2 (Z.of_nat n) (Z.of_nat n) (matrix_rows n U))
+    = Ret (mk_arr2 (Z.of_nat n) (Z.of_nat n) (matrix_rows n (upper_to_full f0 fadd fsub U))).
+  Proof.
+    unfold g_upper_to_full.
+    assert (Ht : arr2_transpose f0 (mk_arr2 (Z.of_nat n) (Z.of_nat n) (matrix_rows n U))
+                 = mk_arr2 (Z.of_nat n) (Z.of_nat n) (matrix_rows n (fun r c => U c r))).
+    { unfold arr2_transpose. cbn [a_rows a_cols a_cells]. rewrite Nat2Z.id. f_equal.
+      unfold matrix_rows at 2. apply map_ext_in. intros j Hj. apply in_seq in Hj.
+      apply map_ext_in. intros i Hi. apply in_seq in Hi. apply mc_rows_cell; lia. }
+    assert (Hd : arr2_diagonal f0 (mk_arr2 (Z.of_nat n) (Z.of_nat n) (matrix_rows n U))
+                 = map (fun i => U i i) (seq 0 n)).
+    { unfold arr2_diagonal. cbn [a_rows a_cols a_cells]. rewrite Z.min_id, Nat2Z.id.
+      apply map_ext_in. intros i Hi. apply in_seq in Hi. apply mc_rows_cell; lia. }
+    assert (Hg : arr2_of_diag f0 (map (fun i => U i i) (seq 0 n))
+                 = mk_arr2 (Z.of_nat n) (Z.of_nat n) (matrix_rows n (fun r c => if Nat.eqb r c then U r r else f0))).
+    { unfold arr2_of_diag. rewrite map_length, seq_length. f_equal.
+      unfold matrix_rows. apply map_ext_in. intros i Hi. apply in_seq in Hi.
+      apply map_ext. intros j. destruct (Nat.eqb i j); [|reflexivity].
+      rewrite (nth_map_lt _ _ _ _ 0%nat) by (rewrite seq_length; lia). rewrite seq_nth by lia. reflexivity. }
+    assert (Hb : forall (f : F -> F -> F) (A B : nat -> nat -> F),
+               arr2_bin f (mk_arr2 (Z.of_nat n) (Z.of_nat n) (matrix_rows n A)) (mk_arr2 (Z.of_nat n) (Z.of_nat n) (matrix_rows n B))
+               = Ret (mk_arr2 (Z.of_nat n) (Z.of_nat n) (matrix_rows n (fun r c => f (A r c) (B r c))))).
+    { intros f A B. unfold arr2_bin, same_dims. cbn [a_rows a_cols a_cells]. rewrite Z.eqb_refl. cbn [andb].
+      f_equal. f_equal. unfold matrix_rows. rewrite mc_py_map2_map. apply map_ext. intros r.
+      apply mc_py_map2_map. }
+    rewrite Ht, Hd, Hg. rewrite Hb. cbn [bind]. rewrite Hb. cbn [bind]. reflexivity.
+  Qed.
 
   (* 3. reinflate_matrix on a vector of length n(n+1)/2 returns the n x n array of the model's reinflated matrix *)
   Theorem g_reinflate_matrix_eq (n : nat) (v : list F) :
     length v = (n * (n + 1) / 2)%nat ->
     g_reinflate_matrix F f0 fadd fsub np_sqrt_int v
     = Ret (mk_arr2 (Z.of_nat n) (Z.of_nat n) (matrix_rows n (reinflate f0 fadd fsub v))).
-  *)
+  Proof.
+    intros Hlen. unfold g_reinflate_matrix. rewrite (mc_uncompress n v Hlen). cbn [bind].
+    rewrite mc_upper_to_full. cbn [bind].
+    unfold reinflate. rewrite Hlen, full_matrix_size_inverse. reflexivity.
+  Qed.
 End E.
+Print Assumptions g_compress_matrix_eq.
+Print Assumptions g_compress_matrix_not_square.
+Print Assumptions g_reinflate_matrix_eq.
 
 Definition Mz (r c : nat) : Z := Z.of_nat (10 * r + c).
 Eval vm_compute in g_compress_matrix Z (mk_arr2 3 3 (matrix_rows 3 Mz)).
